@@ -57,8 +57,6 @@ def preamble(res):
     return res.guesses[:res.pops[0]['first_guess']] if res.pops else list(res.guesses)
 
 def classify(info):
-    if info.get('interrupted_is_final_preterminal'):
-        return 'final-markov-preterminal'
     return None
 
 def one_history(run, case, name, sn, U, Ug, m, j, later, rng):
@@ -89,6 +87,8 @@ def one_history(run, case, name, sn, U, Ug, m, j, later, rng):
         pg_ = pops_with_guesses(r)
         if fired.get('x') and not quit_ and pg_ and pg_[-1][0][0] == ('M',) and pg_[-1][2] != levels.get(pg_[-1][0]):
             info['interrupted_is_final_preterminal'] = True          # quit landed inside the Markov level of the final pre-terminal
+        # a quit inside the Markov level of the FINAL pre-terminal leaves nothing to pop afterwards: the last pop is the interrupted level itself
+        has_x = quit_ and bool(pg_) and len(pg_[-1][2]) == 0
         pre = preamble(r)
         hist += r.guesses
         # 1. what is emitted before the first pre-terminal of a resumed run must be the owed remainder, from its first string on
@@ -101,7 +101,7 @@ def one_history(run, case, name, sn, U, Ug, m, j, later, rng):
         if len(pre) < len(owed):
             if quit_ and len(r.guesses) == len(pre):
                 owed = owed[len(pre):]                               # interrupted again inside the remainder
-                runs.append((r, True)); run.ev('requit_inside_remainder')
+                runs.append((r, True, has_x)); run.ev('requit_inside_remainder')
                 strictly_inside = True
                 continue
             run.violation(f'{where}: cycle {ci}: {len(owed) - len(pre)} remaining string(s) of the interrupted level were skipped', case,
@@ -111,14 +111,14 @@ def one_history(run, case, name, sn, U, Ug, m, j, later, rng):
         for i, (key, prob, gs) in enumerate(pg_):
             if key[0] != ('M',):
                 continue
-            if quit_ and i == len(pg_) - 1:
+            if has_x and i == len(pg_) - 1:
                 if gs:
                     run.violation(f'{where}: cycle {ci}: guesses were generated for the pre-terminal popped after the quit', case, observed=gs[:5], mech=classify(info)); return False
                 continue                                             # popped when the quit was noticed: saved, not generated
             full = levels.get(key)
             if full is None:
                 run.violation(f'{where}: unknown Markov pre-terminal {key}', case, mech=classify(info)); return False
-            cut_short = quit_ and i == len(pg_) - 2
+            cut_short = (has_x and i == len(pg_) - 2) or (quit_ and not has_x and i == len(pg_) - 1)
             if gs != (full[:len(gs)] if cut_short else full) and not (i == len(pg_) - 1 and not quit_ and info['interrupted_is_final_preterminal']):
                 run.violation(f'{where}: cycle {ci}: Markov level {key} was not generated completely / from its first string', case,
                               observed=gs[:8], expected=full[:8], mech=classify(info)); return False
@@ -128,7 +128,7 @@ def one_history(run, case, name, sn, U, Ug, m, j, later, rng):
                     strictly_inside = True
             if i == len(pg_) - 1 and not quit_ and info['interrupted_is_final_preterminal']:
                 pass
-        runs.append((r, quit_))
+        runs.append((r, quit_, has_x))
         if not quit_:
             break
     if runs[-1][1]:
@@ -136,9 +136,9 @@ def one_history(run, case, name, sn, U, Ug, m, j, later, rng):
     # 3. whole-history accounting at pre-terminal level (C08 oracle) and at guess level
     Upk = [(p[0], p[1]) for p in U]
     saved, rr = [], []
-    for r, q in runs:
+    for r, q, hx in runs:
         pk = [(p['key'] + (p['base_prob'],), p['prob']) for p in r.pops]
-        rr.append((pk, q and len(pk) > 0))
+        rr.append((pk, q and hx and len(pk) > 0))
         if q:
             saved.append(pk[-1][1] if pk else (saved[-1] if saved else 1.0))
     if not judge(run, case, Upk, rr, saved, where, mech=classify(info)):
